@@ -96,4 +96,41 @@ mod verif_native {
                  rate, rtt, credited, elapsed_s, rate * (elapsed_s + rtt) + 1472.0);
         assert!((credited as f64) <= rate * (elapsed_s + rtt) + 1472.0);
     }
+
+    // C13 ledger at concrete points: whatever path hands a frame to the sink (acknowledgements incl. the sync reply, data,
+    // sync) debits the flush credit by exactly the bytes sent (the unbounded statement is the Verus emission contract; this
+    // is the witness the check falls back on when a changed emitter closure leaves the verifier undecided)
+    struct CountingFrameSink { frames: usize, bytes: usize }
+    impl FrameSink for CountingFrameSink { fn send(&mut self, d: &[u8]) { self.frames += 1; self.bytes += d.len(); } }
+
+    #[test]
+    fn verif_c13_every_emission_path_debits_the_credit() {
+        // acknowledgement path: a pending sync reply plus three ack groups
+        let mut hc = HalfConnection::new(cfg(10_000));
+        for id in [0u32, 40, 90] { hc.handle_data_frame(DataFrame { sequence_id: id, nonce: false, datagrams: vec![] }); }
+        hc.handle_sync_frame(SyncFrame { next_frame_id: None, next_packet_id: None });
+        hc.flush_alloc = 10_000;
+        let mut sink = CountingFrameSink { frames: 0, bytes: 0 };
+        let _ = hc.emit_ack_frames(&mut sink);
+        assert!(sink.frames >= 1, "an acknowledgement frame was due");
+        assert_eq!(10_000 - hc.flush_alloc, sink.bytes as isize, "C13: ack frames debit the credit by the bytes sent");
+        // data path: one packet of three fragments
+        let mut hc = HalfConnection::new(cfg(10_000));
+        hc.send(vec![7u8; 2 * MAX_FRAGMENT_SIZE + 10].into_boxed_slice(), 0, SendMode::Reliable);
+        hc.flush_alloc = 10_000;
+        let mut sink = CountingFrameSink { frames: 0, bytes: 0 };
+        let _ = hc.emit_data_frames(0, 100, 0, &mut sink);
+        assert_eq!(sink.frames, 3, "three data frames");
+        assert_eq!(10_000 - hc.flush_alloc, sink.bytes as isize, "C13: data frames debit the credit by the bytes sent");
+        // sync path
+        let mut hc = HalfConnection::new(cfg(10_000));
+        hc.send(vec![1u8; 10].into_boxed_slice(), 0, SendMode::Unreliable);
+        hc.flush_alloc = 10_000;
+        let mut sink = CountingFrameSink { frames: 0, bytes: 0 };
+        let _ = hc.emit_data_frames(0, 100, 0, &mut sink);
+        let (b0, a0) = (sink.bytes, hc.flush_alloc);
+        let _ = hc.emit_sync_frame(10_000, 100, &mut sink);
+        assert_eq!(sink.frames, 2, "a sync frame was due");
+        assert_eq!(a0 - hc.flush_alloc, (sink.bytes - b0) as isize, "C13: the sync frame debits the credit by the bytes sent");
+    }
 }
